@@ -23,7 +23,9 @@ pub fn l2_case(seed: u64, l: &mut Local) {
         ttls: &[2, 3, 10, 30, 120],
         faults: false,
         verify: false,
-        hostnames: false,
+        // (in a quarter of the cases the hosts of the browsed services are searched by name as well: what
+        // the browse needs is refreshed at all four marks all the same)
+        hostnames: seed % 4 == 1,
         max_horizon: 400_000,
     };
     let made = browser::scenario(seed, &opts);
@@ -34,7 +36,7 @@ pub fn l2_case(seed: u64, l: &mut Local) {
         return;
     }
     l.count("daemon_iterations", made.world.total_iterations);
-    l.distinct.insert(util::fnv_str(&format!("L2|{}", made.desc.split(" events:").next().unwrap_or(""))));
+    l.distinct.insert(util::fnv_str(&format!("L2|{}|{}", made.desc.split(" events:").next().unwrap_or(""), opts.hostnames)));
     let sl = c03::slack(made.world.stepping);
     let hist = Hist::build(trace, 0, &[]);
     let txs = scen::tx_msgs(trace, 0);
